@@ -64,7 +64,7 @@ Section Eval.
         | Some (v, t) =>
             match f with
             | FIdent s _ => match field_of v s with Some w => Some (w, t) | None => None end
-            | FIndex i => match elem_of v i with Some w => Some (w, t) | None => None end
+            | FIndex i _ => match elem_of v i with Some w => Some (w, t) | None => None end
             end
         | None => None
         end
